@@ -168,9 +168,11 @@ pub fn run(tier: Tier) -> i32 {
     };
 
     // ------------------------------------------------------------------ scope 1: automaton
-    let settings: Vec<(u32, u32, u32)> = tier.pick(
-        vec![(3, 0, 2), (0, 0, 0), (8, 4, 4), (0, 4, 0), (4, 0, 4), (1, 2, 3)],
-        vec![(3, 0, 2), (0, 0, 0), (8, 4, 4), (0, 4, 0), (4, 0, 4), (1, 2, 3), (2, 2, 1), (8, 0, 0)],
+    // (settings, depth for setup 0, depth for setup 1): the 6 MiB literal table of lc+lp = 12 makes every decode cost
+    // ~90 us, so the heavy settings get one level less
+    let groups: Vec<(Vec<(u32, u32, u32)>, usize, usize)> = tier.pick(
+        vec![(vec![(3, 0, 2), (0, 0, 0), (0, 4, 0), (4, 0, 4), (1, 2, 3)], 4, 3), (vec![(8, 4, 4)], 3, 2)],
+        vec![(vec![(3, 0, 2), (0, 0, 0), (0, 4, 0), (4, 0, 4), (1, 2, 3), (2, 2, 1)], 6, 4), (vec![(8, 0, 0)], 5, 4), (vec![(8, 4, 4)], 3, 2)],
     );
     let sigma = automaton_alphabet(seed);
     let setups: Vec<(&str, Vec<Sym>)> = vec![
@@ -181,9 +183,10 @@ pub fn run(tier: Tier) -> i32 {
             s
         }),
     ];
+    for (settings, d0, d1) in &groups {
     for (si, (sname, setup)) in setups.iter().enumerate() {
-        let depth = if si == 0 { tier.pick(4, 6) } else { tier.pick(3, 4) };
-        let name = format!("automaton/{}/depth<={}", sname, depth);
+        let depth = if si == 0 { *d0 } else { *d1 };
+        let name = format!("automaton/{}/depth<={}/{:?}", sname, depth, settings);
         if !ctx.may_start(&name) {
             continue;
         }
@@ -225,6 +228,7 @@ pub fn run(tier: Tier) -> i32 {
             }
         });
         ctx.scope_done(&name, total * nset, t0, &format!("{} programs x {} lc/lp/pb x 6 presentations", total, nset));
+    }
     }
 
     // ------------------------------------------------------------------ scope 2: length x distance sweep
